@@ -253,7 +253,10 @@ def check_loops(ctx, chk):
                               "static fact", loc)
                 continue
             kind, detail = classify_while(m, w, gcls)
-            construct = f"ScenarioGenerator.{name}: while {cond} [{kind}]"
+            bound_txt = ast.unparse(w.test.comparators[0]) if isinstance(w.test, ast.Compare) \
+                and len(w.test.comparators) == 1 else cond
+            construct = f"ScenarioGenerator.{name}: while-loop bounded by {bound_txt} [{kind}]" \
+                if kind != "unrecognised" else f"ScenarioGenerator.{name}: while {cond} [{kind}]"
             if kind == "unrecognised":
                 chk.undecided("C15.loop", construct, "the loop is not a counter / retry-until-"
                               "fresh loop (`progress < bound`): like `while True` resampling, its "
@@ -314,9 +317,28 @@ def classify_while(m, w, cls=None):
     # progress statements: `x += 1` (counter) or `S.add(..)` for len(S)
     top_level_progress = False
     guarded = []
+    skip_guards = []          # `if c: continue` statements that precede a top-level progress
     for st in w.body:
+        if isinstance(st, ast.If) and st.body and isinstance(st.body[-1], ast.Continue) \
+                and not st.orelse:
+            skip_guards.append(st)
         if is_progress(st, prog):
             top_level_progress = True
+            break
+    if top_level_progress and skip_guards:
+        # progress only when no earlier `continue` guard fires: conditional progress, written as
+        # guard clauses; a guard `key in container` is the retry-until-fresh test
+        top_level_progress = False
+        g0 = skip_guards[-1]
+        neg = ast.If(test=ast.UnaryOp(op=ast.Not(), operand=g0.test), body=[], orelse=[])
+        if isinstance(g0.test, ast.Compare) and len(g0.test.ops) == 1 \
+                and isinstance(g0.test.ops[0], ast.In):
+            neg = ast.If(test=ast.Compare(left=g0.test.left, ops=[ast.NotIn()],
+                                          comparators=g0.test.comparators), body=[], orelse=[])
+        neg.body = [x for x in w.body if x is not g0]
+        ast.copy_location(neg, g0)
+        ast.fix_missing_locations(neg)
+        guarded.append(neg)
     for node in ast.walk(ast.Module(body=w.body, type_ignores=[])):
         if isinstance(node, ast.If):
             if any(is_progress(s, prog) for s in ast.walk(ast.Module(body=node.body,
@@ -373,6 +395,11 @@ def classify_while(m, w, cls=None):
 def is_progress(st, prog):
     if isinstance(st, ast.AugAssign) and isinstance(st.op, ast.Add) \
             and ast.unparse(st.target) == prog:
+        return True
+    # len(D) advances by D[key] = ... (a fresh key)
+    if isinstance(st, ast.Assign) and len(st.targets) == 1 \
+            and isinstance(st.targets[0], ast.Subscript) \
+            and prog == f"len({ast.unparse(st.targets[0].value)})":
         return True
     if isinstance(st, ast.Expr) and isinstance(st.value, ast.Call) \
             and isinstance(st.value.func, ast.Attribute) and st.value.func.attr in ("add", "append") \
@@ -531,9 +558,12 @@ def check_counts(ctx, chk):
                           ("_generate_privescs", "privescs_added")):
         m = gcls.methods[meth]
         ok, detail = counter_pairing(m)
-        chk.ob("C15.counts", f"{meth}: the counter is 0 initially, +1 exactly with each insertion of "
-               "a fresh key, loop exits when it reaches the requested number", ok, detail,
-               f"{m.module.path}:{m.node.lineno}")
+        desc = (f"{meth}: the count of definitions advances by exactly one with each insertion of a "
+                "fresh key, and the loop exits when it reaches the requested number")
+        if ok is None:
+            chk.undecided("C15.counts", desc, detail, f"{m.module.path}:{m.node.lineno}")
+        else:
+            chk.ob("C15.counts", desc, ok, detail, f"{m.module.path}:{m.node.lineno}")
     # subnets partition
     fi, ip, s, cn = method_run(ctx, "_generate_subnets")
     st = [ev for ev in s.events if ev.kind == "store" and ev.data.get("name") == "subnets"]
@@ -581,8 +611,14 @@ def check_counts(ctx, chk):
             cond = f_show(cn.conj(tuple(c for c in ev.pc if c[0] not in ("inloop", "fact"))))
             loops = [cn.show(ip.loops[c[1]]["iter"]) for c in ev.pc if c[0] == "inloop"]
             addr = cn.show(dict(news[0].data["kwargs"]).get("address", C(None)))
-            ok = idx == f"({E}[0], each(range({E}[1])))" and cond == f"!0=={E}[0]" and \
-                loops == ["enumerate(G.subnets)", f"range({E}[1])"] and addr == idx
+            # two enumerations of "every (subnet, index) of every non-internet subnet": all
+            # subnets with subnet 0 skipped, or the tail subnets[1:] counted from 1
+            E2 = "each(enumerate(G.subnets[1:]))"
+            form_a = idx == f"({E}[0], each(range({E}[1])))" and cond == f"!0=={E}[0]" and \
+                loops == ["enumerate(G.subnets)", f"range({E}[1])"]
+            form_b = idx == f"(({E2}[0]+1), each(range({E2}[1])))" and cond == "TRUE" and \
+                loops == ["enumerate(G.subnets[1:])", f"range({E2}[1])"]
+            ok = (form_a or form_b) and addr == idx
             detail = f"hosts[{idx}] under {cond} in loops {loops}; Host(address={addr})"
         chk.ob("C15.counts", f"{meth}: one Host per (subnet, index) of every non-internet subnet, "
                "stored under its own address", ok, detail, fi.module.path)
@@ -624,7 +660,24 @@ def counter_pairing(m):
                     return False, f"insertions into {d}: {len(ins)} paired, {len(other_ins)} other"
                 return False, f"increment of {c} is not under a freshness test"
         return False, f"increment of {c} is not paired with an insertion"
-    return False, "generating loop `while counter < n` not found"
+    # the count may be the size of the definitions dict itself: `while len(D) < n` with insertions
+    # D[key] = ... only (no deletions) is paired by construction
+    for w in ast.walk(m.node):
+        if isinstance(w, ast.While) and isinstance(w.test, ast.Compare) \
+                and len(w.test.ops) == 1 and isinstance(w.test.ops[0], ast.Lt):
+            left = w.test.left
+            if isinstance(left, ast.Call) and isinstance(left.func, ast.Name) \
+                    and left.func.id == "len" and len(left.args) == 1:
+                d = ast.unparse(left.args[0])
+                removes = [n for n in ast.walk(m.node) if isinstance(n, ast.Call)
+                           and isinstance(n.func, ast.Attribute)
+                           and n.func.attr in ("pop", "popitem", "clear")
+                           and ast.unparse(n.func.value) == d] + \
+                          [n for n in ast.walk(m.node) if isinstance(n, ast.Delete)]
+                if not removes:
+                    return True, ""
+                return False, f"{d} also shrinks inside the generating loop"
+    return None, "generating loop `while counter < n` not found"
 
 
 # ------------------------------------------------------------------------------ (f)
